@@ -520,8 +520,8 @@ Definition FUEL : nat := 8.
 
 (* how a custom transformation behaves: none given / hands back an object that still carries the
    attributes of the function (the function itself, a functools.wraps wrapper) / hands back an
-   object without them *)
-Inductive trkind := TrNone | TrKeep | TrDrop.
+   object without them / raises *)
+Inductive trkind := TrNone | TrKeep | TrDrop | TrRaise.
 
 Record deco := { d_type : string; d_val : val; d_tr : trkind }.
 
@@ -540,12 +540,13 @@ Record mdef := {
 }.
 
 Definition tr_callee (k : trkind) : val :=
-  match k with TrNone => VNone | TrKeep => VTok 1 | TrDrop => VTok 2 end.
+  match k with TrNone => VNone | TrKeep => VTok 1 | TrDrop => VTok 2 | TrRaise => VTok 3 end.
 
 Definition ext_std (callee : val) (args : list val) : outcome val :=
   match callee, args with
   | VTok 1, f :: _ => Ok f
   | VTok 2, VObj id _ :: _ => Ok (VObj id [])
+  | VTok 3, _ => Raise ValueErrorC
   | _, _ => Raise TypeErrorC
   end.
 
@@ -566,11 +567,19 @@ Fixpoint apply_decos (fd_fun : fundef) (cur : val) (ds : list deco) : outcome va
    staticmethod object itself are not visible through it. *)
 Definition build_attr (fd_fun : fundef) (m : mdef) : outcome (string * aent) :=
   match m_wrap m with
-  | WGetter a => Ok (m_name m, a)
+  | WGetter a =>
+      (* a decorator above @property does setattr on the property object (no __dict__): the program
+         raises AttributeError while the class body runs; decorators below @property decorate the
+         getter, which getattr(instance, name) never shows *)
+      bind (apply_decos fd_fun (VObj (m_id m) []) (m_inner m)) (fun _ =>
+      bind (apply_decos fd_fun (VTok 0) (m_outer m)) (fun _ => Ok (m_name m, a)))
   | WPlain => bind (apply_decos fd_fun (VObj (m_id m) []) (m_inner m ++ m_outer m))
                    (fun o => Ok (m_name m, AVal o))
   | WClassMethod | WStaticMethod =>
-      bind (apply_decos fd_fun (VObj (m_id m) []) (m_inner m)) (fun o => Ok (m_name m, AVal o))
+      (* decorators above @classmethod/@staticmethod set the attribute on the descriptor object,
+         where getattr(instance, name) does not look *)
+      bind (apply_decos fd_fun (VObj (m_id m) []) (m_inner m)) (fun o =>
+      bind (apply_decos fd_fun (VObj 0 []) (m_outer m)) (fun _ => Ok (m_name m, AVal o)))
   end.
 
 Fixpoint build_table (fd_fun : fundef) (cd : list mdef) : outcome (list (string * aent)) :=
